@@ -31,8 +31,9 @@ RULE = (
     "tile-shape columns (+ derived n_iterations columns in both naming styles), 0-2 explicit split_by_cols, tensor/"
     "mapping/other columns, shuffled column order, dtypes float32/float64/int64/uint8/object, RangeIndex or index "
     "with gaps; values from small level pools (ties, dominance, constants, zeros) on a quarter-step log grid of "
-    "the drawn tolerance, all float32-exact. Tolerances: objective {0,.01,.1,.5,1} x reservation {0,.01,.1,.5} x "
-    "absolute {0,.01,.1,t_r/2,t_r/3}; half of the cases all-zero. Entry points: makepareto, "
+    "the drawn tolerance (or on a*(k+f) around the multiples of the absolute tolerance), all float32-exact. "
+    "Tolerance scenarios: zero (30%), objective only {.01,.1,.5,1}, reservation relative {.01,.1,.5}, reservation "
+    "absolute {.01,.05,.1}, both, and the real caller's absolute = relative / n_einsums. Entry points: makepareto, "
     "PmappingDataframe.make_pareto (drop_valid_reservations on/off, inplace on/off), PmappingDataframe("
     "skip_pareto=False). Each case is run twice: as is, and with one extra constant column of a drawn class. "
     "Non-trivial: >=2 fused-loop groups, >=1 varying reservation column, >=1 row dropped and >=2 kept. "
@@ -53,7 +54,31 @@ ASSUMPTIONS = [
 ]
 TOLERANCE = "exact at zero tolerance; rel 1e-4 slack on the (1+t) / +a coverage bounds"
 
-MUTANTS = []  # filled in below (kept at the end of the file next to the evidence of each run)
+# Sensitivity runs (scratch worktree, quick tier, seed 1).  On the unchanged tree every run also reports the
+# genuine finding make_pareto:tolerance-swap-inverted (see regress/C12/), so "caught" means: an additional key.
+MUTANTS = [
+    {"what": "makepareto: fused-loop / split_by_cols columns get goal 'min' instead of 'diff'", "caught": True,
+     "key": "exact:drops-nondominated, tol:dropped-uncovered"},
+    {"what": "logscale_to_tolerance: np.floor instead of np.round", "caught": True,
+     "key": "tol:kept-dominated-after-rounding",
+     "note": "does not break the (1+t) coverage bound of the statement; caught by oracle part (b) only"},
+    {"what": "makepareto: default columns = objective columns only (reservation columns skipped)", "caught": True,
+     "key": "exact:drops-nondominated, tol:dropped-uncovered"},
+    {"what": "makepareto: constant-column test ignores the last row ((arr[:-1] == arr[0]).all())", "caught": True,
+     "key": "exact:drops-nondominated, tol:dropped-uncovered"},
+    {"what": "logscale_to_tolerance: grid base 1 + 2*tolerance", "caught": True, "key": "tol:dropped-uncovered"},
+    {"what": "round_to_tolerance: step 2*tolerance", "caught": True,
+     "key": "tol:dropped-uncovered, tol:kept-dominated-after-rounding",
+     "note": "survived the first generator (absolute-only tolerance was rare, values far from the a-grid); "
+             "caught after adding the res-abs scenario and a*(k+f) reservation levels"},
+    {"what": "multi_round: use_log_mask inverted (log_step_size < abs_step_size)", "caught": True,
+     "key": "tol:kept-dominated-after-rounding"},
+    {"what": "makepareto: objectives rounded with resource_usage_tolerance", "caught": True,
+     "key": "exact:drops-nondominated, tol:dropped-uncovered"},
+    {"what": "makepareto: `break` instead of `continue` at a constant column", "caught": True,
+     "key": "constant-column-changes-result:*, exact:drops-nondominated, tol:dropped-uncovered"},
+    {"what": "makepareto: rounded columns written back into the table", "caught": True, "key": "values-modified"},
+]
 
 SEP = "<SEP>"
 E = "Matmul0"
